@@ -3,7 +3,8 @@ sys.path.insert(0, "/verif")
 from pyvc.symex import Engine
 from pyvc.load import load_contracts
 from pyvc import prove
-E = Engine()
+import os
+E = Engine(os.environ.get("PYVC_SRC", "/repo/src"))
 names = sys.argv[1].split(",")
 load_contracts(E, names)
 targets = [t for t in E.registry.contracts if len(sys.argv) < 3 or any(a in t for a in sys.argv[2:])]
